@@ -633,8 +633,9 @@ def formatnum_fn(
     else:
         sep = ctx.LOCALIZATION_DATA["grouping_separator"]
 
-    if sep in arg0:
-        # separator only allowed when R)eversing
+    if sep != "." and sep in arg0:
+        # separator only allowed when R)eversing (the raw input always uses
+        # "." as its decimal point, also where "." is the group separator)
         return arg0
 
     decimal_point = ctx.LOCALIZATION_DATA["decimal_point"]
@@ -694,10 +695,11 @@ def _formatnum_reverse(ctx: "Wtp", arg0: str) -> str:
     # Kludge for French; the locale data has non-breaking spaces as the
     # separators, but it seems clear we must also allow normal spaces
     if sep == "\xa0":  # non-breaking space
-        return arg0.replace(decimal, ".").replace(sep, "").replace(" ", "")
+        return arg0.replace(sep, "").replace(" ", "").replace(decimal, ".")
 
     # Currently only doing the minimum by removing thousand separators
-    return arg0.replace(decimal, ".").replace(sep, "")
+    # (before the decimal point is normalized: the separator may be ".")
+    return arg0.replace(sep, "").replace(decimal, ".")
 
 
 def dateformat_fn(
